@@ -617,6 +617,46 @@ def _has_var(x):
 
 
 def refine_model(ob, s, rounds=8, timeout_s=5.0, formulas=None):
+    """wrapper: the refinement first looks for a counterexample inside a restricted language (text without upper-case
+    letters, then printable text).  `sat` found there is a genuine model; `unsat` found there says nothing about the VC
+    (the restriction may have excluded every counterexample -- e.g. one that needs an upper-case letter), so an `unsat`
+    answer is only returned when the UNRESTRICTED query is unsat as well.  (Until the fourth session the restricted
+    `unsat` was returned as a proof: seed C17-6, whose counterexample needs `item` with an upper-case letter, verified.)"""
+    fs = formulas if formulas is not None else list(ob.pc) + [ob.goal]
+    try:
+        consts = _string_consts(fs)
+    except Exception:  # noqa: BLE001
+        consts = []
+    lowerp = z3.Star(z3.Union(z3.Range(" ", "@"), z3.Range("[", "~")))
+    printable = z3.Star(z3.Range(" ", "~"))
+    langs = ([lowerp, printable] if consts else []) + [None]
+    base = list(s.assertions())
+    last = "unknown"
+    for lang in langs:
+        s2 = z3.Solver()
+        s2.set("timeout", int(timeout_s * 1000))
+        for f in base:
+            s2.add(f)
+        if lang is not None:
+            for c in consts:
+                s2.add(z3.InRe(c, lang))
+        r = timed_check(s2, timeout_s)
+        if r == z3.unsat:
+            if lang is None:
+                return "unsat", None
+            continue                      # no counterexample in this language: says nothing about the VC
+        if r != z3.sat:
+            continue
+        verdict, m = _refine_model(ob, s2, rounds, timeout_s, formulas, restrict=False)
+        if verdict == "sat":
+            return verdict, m             # a model found under an extra restriction is still a model
+        if verdict == "unsat" and lang is None:
+            return "unsat", None
+        last = "unknown"
+    return last, None
+
+
+def _refine_model(ob, s, rounds=8, timeout_s=5.0, formulas=None, restrict=True):
     """A model may give the abstract stdlib functions (int(), float(), lower() ...) values that CPython does not
     give them at the model's own strings.  Such a model is not a counterexample.  Add the true ground facts at those
     points and ask again (counterexample-guided refinement; every added fact is a fact about CPython).
@@ -631,7 +671,7 @@ def refine_model(ob, s, rounds=8, timeout_s=5.0, formulas=None):
     # pinned down by the general facts above and a few ground points, instead of an endless chase through exotic code
     # points (a model found under an extra restriction is still a model)
     try:
-        consts = _string_consts(formulas)
+        consts = _string_consts(formulas) if restrict else []
         if consts:
             s2 = z3.Solver()
             s2.set("timeout", int(timeout_s * 1000))
@@ -664,6 +704,18 @@ def refine_model(ob, s, rounds=8, timeout_s=5.0, formulas=None):
             pre.append(z3.Implies(z3.InRe(app.arg(0), no_up), app == app.arg(0)))
         elif nm == "py_upper" and no_lo is not None:
             pre.append(z3.Implies(z3.InRe(app.arg(0), no_lo), app == app.arg(0)))
+    # ... and the single ASCII letters (true ground facts; they keep the search from walking through the alphabet one
+    # wrong guess per round)
+    seen_decl = set()
+    for app in apps:
+        d = app.decl()
+        if d.name() in ("py_lower", "py_upper") and d.name() not in seen_decl and d.arity() == 1:
+            seen_decl.add(d.name())
+            for ch in "ABCDEFGHIJKLMNOPQRSTUVWXYZ":
+                if d.name() == "py_lower":
+                    pre.append(d(z3.StringVal(ch)) == z3.StringVal(ch.lower()))
+                else:
+                    pre.append(d(z3.StringVal(ch.lower())) == z3.StringVal(ch))
     if pre:
         m0 = s.model()
         if not all(z3.is_true(m0.eval(f, model_completion=True)) for f in pre):
